@@ -122,3 +122,5 @@
 (assert (forall ((p Bytes) (t Bytes)) (! (not (isTokOf bempty p t)) :pattern ((isTokOf bempty p t)))))
 ; a prefix of a is a prefix of a·b
 (assert (forall ((a Bytes) (b Bytes) (p Bytes)) (! (=> (hasPrefix a p) (hasPrefix (bcat a b) p)) :pattern ((hasPrefix (bcat a b) p)))))
+; joining a valid component makes a clean path strictly longer (so no path is its own descendant)
+(assert (forall ((a Bytes) (b Bytes)) (! (=> (validName b) (> (blen (pjoin a b)) (blen a))) :pattern ((pjoin a b)))))
